@@ -170,6 +170,22 @@ def run(ck):
                 elif c["same"]:
                     ck.check((neg_t == sliced(shuffled, pb)) if _known(neg_t) else None, "C07.R4", inst + ":negative rows are training rows", ssite, "negative batch is %r; expected the shuffled training rows" % (neg_t,))
                 else:
+                    # rows drawn with independent uniform indices from a tensor whose rows were first reordered by a permutation are
+                    # rows drawn with independent uniform indices from the tensor itself
+                    def _unperm(a_):
+                        if isinstance(a_, T.App) and a_.op == "index" and len(a_.args[1]) == 1 and isinstance(a_.args[1][0], (tuple, list)) and a_.args[1][0][0] == "adv":
+                            ia_ = a_.args[1][0][1].single_atom() if hasattr(a_.args[1][0][1], "single_atom") else None
+                            in_ = a_.args[0].single_atom() if hasattr(a_.args[0], "single_atom") else None
+                            if (isinstance(ia_, T.App) and ia_.op == "randint" and isinstance(in_, T.App) and in_.op == "index" and len(in_.args[1]) == 1
+                                    and isinstance(in_.args[1][0], (tuple, list)) and in_.args[1][0][0] == "adv"):
+                                pa_ = in_.args[1][0][1].single_atom() if hasattr(in_.args[1][0][1], "single_atom") else None
+                                if isinstance(pa_, T.App) and pa_.op == "randperm":
+                                    return T.app("index", in_.args[0], a_.args[1])
+                        return None
+
+                    if neg_t is not None:
+                        neg_t = T.subst(neg_t, _unperm)
+                        ri = [a for a in neg_t.all_atoms() if isinstance(a, T.App) and a.op in ("randint", "randperm")]
                     okn = len(ri) == 1 and ri[0].op == "randint" and neg_t == sliced(T.app("index", src, (("adv", T.P(ri[0])),)), nsz)
                     if not okn and not _known(neg_t):
                         okn = None
@@ -250,7 +266,11 @@ def run(ck):
                                 ck.check(None if nbt is None or nbt.syms() == want.syms() else False, "C07.R6", inst + ":num_batches = ceil(N / pos_batch_size)", fsite,
                                          "num_batches is %r; expected ceil(N / pos_batch_size)" % (nbt,))
                         ts = argp(env, 4)
-                        ck.check(isinstance(ts, VTens) and ts.term == T.sym("data") and ts.shape == ("N", "nv"), "C07.R3", inst + ":whole data set shuffled", fsite, "the tensor handed to the shuffler is not the training data")
+                        # by the value it had when it was handed over (a shuffler that reorders its working copy in place changes it
+                        # afterwards; in a later epoch it then receives the rows of the data in the order the last epoch left them)
+                        tst = argp(r[7], 4) if len(r) > 7 else None
+                        tst = tst if tst is not None else (ts.term if isinstance(ts, VTens) else None)
+                        ck.check(isinstance(ts, VTens) and ts.shape == ("N", "nv") and (tst == T.sym("data") or _row_permutation_of(tst, "data")), "C07.R3", inst + ":whole data set shuffled", fsite, "the tensor handed to the shuffler is not the training data")
                         nbs_ = num_term(argp(env, 2))
                         if neg_given:
                             ck.check(nbs_ == T.sym("nbs"), "C07.R3", inst + ":the given neg_batch_size is used", fsite, "the shuffler receives neg_batch_size %r" % (nbs_,))
@@ -293,7 +313,9 @@ def run(ck):
                                     okz = False
                             ck.check(okz, "C07.R4", inst + ":z_samples = all-Z rows of the data", fsite, why)
                             ib = argp(env, 5)
-                            ck.check(isinstance(ib, VTens) and ib.term == T.sym("input_bases"), "C07.R1", inst + ":bases forwarded", fsite, "the bases handed to the shuffler are not the caller's input_bases")
+                            ibt = argp(r[7], 5) if len(r) > 7 else None
+                            ibt = ibt if ibt is not None else (ib.term if isinstance(ib, VTens) else None)
+                            ck.check(isinstance(ib, VTens) and ibt == T.sym("input_bases"), "C07.R1", inst + ":bases forwarded", fsite, "the bases handed to the shuffler are not the caller's input_bases")
     # ------------------------------------------------------------------ R4 (second run): the pool is taken from this run's data
     # "every epoch uses every sample ... the negative chains start from this data set's all-Z rows": a fit on other data of the
     # same shape, on the same object, hands the shuffler rows extracted from the data and bases given to *this* call
@@ -339,3 +361,18 @@ def run(ck):
 
 def _c(p):
     return ",".join("%s=%s" % (c[1][:18], c[2]) for c in p.conds[-2:])
+
+
+def _row_permutation_of(t, name):
+    """t is `name` with its rows reordered by one or more random permutations: index(... index(name, [adv randperm]) ...)"""
+    for _ in range(4):
+        a = t.single_atom() if t is not None and hasattr(t, "single_atom") else None
+        if isinstance(a, T.Sym):
+            return a.name == name
+        if not (isinstance(a, T.App) and a.op == "index" and len(a.args[1]) == 1 and isinstance(a.args[1][0], (tuple, list)) and a.args[1][0][0] == "adv"):
+            return False
+        ia = a.args[1][0][1].single_atom() if hasattr(a.args[1][0][1], "single_atom") else None
+        if not (isinstance(ia, T.App) and ia.op == "randperm"):
+            return False
+        t = a.args[0]
+    return False
